@@ -402,3 +402,5 @@ func statusOf(r *http.Response) int {
 	}
 	return r.StatusCode
 }
+
+func urlEscape(s string) string { return url.QueryEscape(s) }
